@@ -25,7 +25,11 @@ RULE = ("Part 1 (finite, complete): the serialised automata are extracted from s
         "ListTokenSource: random derivations, single-token delete/insert/substitute/swap mutants, and all sentences of the "
         "'program' rule up to a length bound after a fixed metadata prefix: shipped parser verdict (any reported syntax error) "
         "must equal the Earley verdict. Non-trivial = lexer strings with >=3 tokens and a longest-match tie, parser sequences of "
-        ">=12 tokens or rejected mutants. Distinct = SHA-1 of the string / token sequence.")
+        ">=12 tokens or rejected mutants. Distinct = SHA-1 of the string / token sequence."
+        " Lexer rules with '-> channel(HIDDEN)' are modelled (hidden-channel tokens are part of the compared token"
+        " sequence); the token and rule enums of the C++ headers and the Python RULE_ constants are compared with the"
+        " grammar's numbering; the sequence of state numbers, matched tokens, prediction decisions and alternative"
+        " numbers of blackbirdParser.cpp must equal that of blackbirdParser.py.")
 ASSUMPTIONS = ["the C++ lexer/parser cannot be executed here (no ANTLR C++ runtime): for the C++ target the claim is the complete "
                "artefact identity of part 1 (its automaton is word for word the one exercised through the Python target)",
                "reference lexer / Earley recogniser implement ANTLR's documented lexer semantics and CFG language"]
